@@ -44,7 +44,7 @@ def rename_updates_ranges(new, **kw):
     doc = Document("spreadsheet")
     body = doc.body
     body.clear()
-    t1, zz = Table("t1", width=3, height=3), Table("zz", width=3, height=3)
+    t1, zz = Table("t1", width=3, height=3), Table("t", width=3, height=3)
     body.append(t1)
     body.append(zz)
     t1.set_named_range("rng_a", (0, 0, 1, 1))
@@ -53,7 +53,7 @@ def rename_updates_ranges(new, **kw):
     table.name = new
     r1, r2 = body.get_named_range("rng_a"), body.get_named_range("rng_b")
     found = table.get_named_ranges(table_name=new2)
-    ok = table.name == new2 and r1.table_name == new2 and r1.crange == (0, 0, 1, 1) and r2.table_name == "zz" and len(found) == 1 and found[0].name == "rng_a"
+    ok = table.name == new2 and r1.table_name == new2 and r1.crange == (0, 0, 1, 1) and r2.table_name == "t" and len(found) == 1 and found[0].name == "rng_a"
     return (not ok), f"after renaming t1 to {new2!r}: r1 points to {r1.table_name!r} {r1.crange}, r2 to {r2.table_name!r}; ranges found for the new name: {[f.name for f in found]}"
 
 
